@@ -13,15 +13,20 @@ Driver protocol: one scenario per line, `scn <slots> <step> <step> …`; steps
   `D[f:o.o.o+f:o.o…]`  the pack directory now lists these index files (in the order of
                        `collect_indices_and_mtime_sorted_by_size`) with these objects; the model applies
                        the difference as environment events (additions first) — rejected if that breaks
-                       git's rule
+                       git's rule.  An element `M<f>:<p>=o.o|<p>=o.o.o` is the multi-pack index (store opened
+                       with `use_multi_pack_index`): version `f` of the file (same path, another mtime),
+                       standing for the packs `p` (their index files are on disk but not listed) with the
+                       objects the multi-pack index assigns to each
   `L[o.o.o]`           the loose objects now present
   `N`  new handle   `X<h>` drop handle   `S<h>` `prevent_pack_unload()`   `R<h>` `refresh_never()`
   `H<h>:<o>` `contains`   `F<h>:<o>` `try_find`   `M` `Store::metrics()`
 and `ev <bumpOnClear> <recheck> <slots> <event> …`: an explicit schedule of the protocol core (the
 interleavings the harness forces on the real code through the cfg(gix_verif) interleaving points).
 Output: the observations of the `H` (`0`/`1`), `F` (`ok`/`none`/`wrong`/`panic`/`err`) and `M` steps,
-joined by `,`.  Not modelled here: multi-pack indices (the harness opens the store with
-`use_multi_pack_index = false` for these scenarios), alternates, delta bases in other packs.
+joined by `,`.  Multi-pack indices: a changed file is moved to another slot (`consSetFilesM`), a lookup goes
+to the pack the multi-pack index assigns the object to (one snapshot entry per pack in the core; `swap(0, idx)`
+of the whole multi-pack index entry is replayed as swaps of the core).  Not modelled here: alternates, delta
+bases in other packs; a pack of a multi-pack index counts as on disk as long as ALL packs of that version are.
 -/
 namespace GixModel.C12
 
@@ -53,6 +58,8 @@ structure World where
   numRefreshes : Nat
   listing : List Nat
   fileObjs : List (Nat × List Nat)
+  /-- every version of the multi-pack index seen so far: its packs (index file, objects assigned to it) -/
+  midx : List (Nat × List (Nat × List Nat)) := []
 
 def World.init (nSlots : Nat) : World :=
   { sys := Sys.init Cfg.fixed nSlots,
@@ -87,6 +94,22 @@ def objsOfFile (w : World) (f : Nat) : List Nat :=
   match w.fileObjs.find? fun d => d.1 == f with
   | some d => d.2
   | none => []
+
+def midxOf (w : World) (f : Nat) : Option (List (Nat × List Nat)) :=
+  (w.midx.find? fun d => d.1 == f).map fun d => d.2
+
+def isMidx (w : World) (f : Nat) : Bool := (midxOf w f).isSome
+
+/-- all versions of the multi-pack index have the same path -/
+def pathKey (w : World) (f : Nat) : Nat := if isMidx w f then 4000000000 else f
+
+/-- the objects a snapshot entry answers for -/
+def objsOfEntry (w : World) (e : Entry) : List Nat :=
+  if e.multi then
+    match midxOf w e.id.file with
+    | some ps => (ps.getD e.pk (0, [])).2
+    | none => []
+  else objsOfFile w e.id.file
 
 /-- `collect_snapshot()` -/
 def collectSnapshot (h : Nat) : M Unit := do
@@ -137,61 +160,76 @@ def loadNextIndex (fuel : Nat) (ptr : Nat) : M Bool := do
 
 def eraseNat (l : List Nat) (k : Nat) : List Nat := l.filter fun x => x != k
 
-/-- find a slot for `f` (the `'increment_slot_index` loop); returns `none` for `InsufficientSlots` -/
-def placeOne (fuel : Nat) (f : Nat) (stable : Bool) (next checked : Nat) (newSlots toRemove : List Nat)
+/-- `set_slot_to_index` -/
+def setSlotTo (k f : Nat) : M Unit := do
+  act (Ev.consSetGen k)
+  match midxOf (← get) f with
+  | some ps => act (Ev.consSetFilesM k f (ps.length - 1))
+  | none => act (Ev.consSetFiles k f false)
+
+/-- find a slot for `f` (the `'increment_slot_index` loop); `mf` = the slot a changed multi-pack index is
+moved from; returns `none` for `InsufficientSlots` -/
+def placeOne (fuel : Nat) (f : Nat) (mf : Option Nat) (stable : Bool) (next checked : Nat) (newSlots toRemove : List Nat)
     (bump : Bool) : M (Option (Nat × Nat × List Nat × List Nat × Bool)) := do
   match fuel with
   | 0 => throw "fuel"
   | fuel + 1 =>
     let s ← getSys
+    let w ← get
     if checked == s.nSlots then return none
     let k := next
     let next := (next + 1) % s.nSlots
     let checked := checked + 1
-    if newSlots.contains k || (stable && toRemove.contains k) then
-      placeOne fuel f stable next checked newSlots toRemove bump
+    if newSlots.contains k || (stable && toRemove.contains k) || mf == some k then
+      placeOne fuel f mf stable next checked newSlots toRemove bump
     else
+      let after := fun (toRemove : List Nat) => match mf with
+        | some m => eraseNat toRemove k ++ [m]
+        | none => eraseNat toRemove k
       match (s.slots k).files with
       | some b =>
-        if b.file == f || (b.isDisposable && stable) then
-          placeOne fuel f stable next checked newSlots toRemove bump
+        if pathKey w b.file == pathKey w f || (b.isDisposable && stable) then
+          placeOne fuel f mf stable next checked newSlots toRemove bump
         else do
-          act (Ev.consSetGen k)
-          act (Ev.consSetFiles k f false)
-          return some (next, checked, newSlots ++ [k], eraseNat toRemove k, true)
+          setSlotTo k f
+          return some (next, checked, newSlots ++ [k], after toRemove, true)
       | none => do
-        act (Ev.consSetGen k)
-        act (Ev.consSetFiles k f false)
-        return some (next, checked, newSlots ++ [k], eraseNat toRemove k, bump)
+        setSlotTo k f
+        return some (next, checked, newSlots ++ [k], after toRemove, bump)
 
-def placeAll (toAdd : List Nat) (stable : Bool) (next checked : Nat) (newSlots toRemove : List Nat)
+def placeAll (toAdd : List (Nat × Option Nat)) (stable : Bool) (next checked : Nat) (newSlots toRemove : List Nat)
     (bump : Bool) : M (Option (List Nat × List Nat × Bool)) := do
   match toAdd with
   | [] => return some (newSlots, toRemove, bump)
-  | f :: rest =>
+  | (f, mf) :: rest =>
     let s ← getSys
-    match ← placeOne (s.nSlots + 2) f stable next checked newSlots toRemove bump with
+    match ← placeOne (s.nSlots + 2) f mf stable next checked newSlots toRemove bump with
     | none => return none
     | some (next, checked, newSlots, toRemove, bump) =>
       placeAll rest stable next checked newSlots toRemove bump
 
 /-- the first loop of `consolidate_with_disk_state`: match the directory listing with the slots of the
 current index; returns (slots that stay, files to add, number of loaded indices, slots to remove) -/
-def matchListing (listing : List Nat) (byFile : List (Nat × Nat)) (newSlots toAdd : List Nat)
-    (numLoaded : Nat) : M (List Nat × List Nat × Nat × List (Nat × Nat)) := do
+def matchListing (listing : List Nat) (byFile : List (Nat × Nat)) (newSlots : List Nat) (toAdd : List (Nat × Option Nat))
+    (numLoaded : Nat) : M (List Nat × List (Nat × Option Nat) × Nat × List (Nat × Nat)) := do
   match listing with
   | [] => return (newSlots, toAdd, numLoaded, byFile)
   | f :: rest =>
-    match byFile.find? fun p => p.1 == f with
+    let w ← get
+    match byFile.find? fun p => p.1 == pathKey w f with
     | some (_, k) =>
-      let byFile := byFile.filter fun p => p.1 != f
+      let byFile := byFile.filter fun p => p.1 != pathKey w f
       let s ← getSys
       match (s.slots k).files with
       | some b =>
-        if b.isDisposable then act (Ev.consPutBack k)
-        matchListing rest byFile (newSlots ++ [k]) toAdd (if b.idx.isLoaded then numLoaded + 1 else numLoaded)
+        if isMidx w f && b.file != f then
+          -- a changed multi-pack index: moved into a new slot, the old one is freed later
+          matchListing rest byFile newSlots (toAdd ++ [(f, some k)]) (if b.idx.isLoaded then numLoaded + 1 else numLoaded)
+        else
+          if b.isDisposable then act (Ev.consPutBack k)
+          matchListing rest byFile (newSlots ++ [k]) toAdd (if b.idx.isLoaded then numLoaded + 1 else numLoaded)
       | none => throw "panic:slot-unset"
-    | none => matchListing rest byFile newSlots (toAdd ++ [f]) numLoaded
+    | none => matchListing rest byFile newSlots (toAdd ++ [(f, none)]) numLoaded
 
 inductive Outcome
   | some    -- a new snapshot was collected
@@ -213,7 +251,7 @@ def consolidate (h : Nat) (needsInit loadNew : Bool) : M Outcome := do
   let w ← get
   let byFile : List (Nat × Nat) := ix.slots.filterMap fun k =>
     match (s.slots k).files with
-    | some b => some (b.file, k)
+    | some b => some (pathKey w b.file, k)
     | none => none
   -- a BTreeMap keyed by path: a later slot with the same path replaces an earlier one
   let byFile := byFile.foldl (fun acc p => (acc.filter fun q => q.1 != p.1) ++ [p]) []
@@ -224,7 +262,7 @@ def consolidate (h : Nat) (needsInit loadNew : Bool) : M Outcome := do
     | some m => (m + 1) % s.nSlots
     | none => 0
   let toRemove := leftover.map fun p => p.2
-  let bump0 := !stable && !toRemove.isEmpty
+  let bump0 := !stable && (!toRemove.isEmpty || toAdd.any fun t => t.2.isSome)
   match ← placeAll toAdd stable next 0 newSlots toRemove bump0 with
   | none =>
     -- `Err(InsufficientSlots)`: only modelled if no slot was overwritten before
@@ -276,7 +314,58 @@ def loadOneIndex (h : Nat) : M Outcome := do
 def findEntry (w : World) (es : List Entry) (o : Nat) (i : Nat) : Option (Nat × Entry) :=
   match es with
   | [] => none
-  | e :: rest => if (objsOfFile w e.id.file).contains o then some (i, e) else findEntry w rest o (i + 1)
+  | e :: rest => if (objsOfEntry w e).contains o then some (i, e) else findEntry w rest o (i + 1)
+
+/-- the entries of one installation are kept together: `[start, start+len)` of the group holding position `i` -/
+def groupOf (es : List Entry) (i : Nat) : Nat × Nat :=
+  match es[i]? with
+  | none => (i, 1)
+  | some e =>
+    let same := fun (x : Entry) => x.slot == e.slot && x.id == e.id
+    let before := ((es.take i).reverse.takeWhile same).length
+    let after := ((es.drop i).takeWhile same).length
+    (i - before, before + after)
+
+/-- the list after `snapshot.indices.swap(0, idx)` where the elements are whole installations -/
+def swapGroups (es : List Entry) (i : Nat) : List Entry :=
+  let (a0, la) := groupOf es 0
+  let (b0, lb) := groupOf es i
+  if b0 == a0 then es
+  else
+    let ga := (es.drop a0).take la
+    let gb := (es.drop b0).take lb
+    let mid := (es.drop (a0 + la)).take (b0 - (a0 + la))
+    let rest := es.drop (b0 + lb)
+    gb ++ mid ++ ga ++ rest
+
+/-- reach `target` (a permutation of the entries) by swaps with position 0 -/
+def permuteTo (fuel : Nat) (h : Nat) (target : List Entry) : M Unit := do
+  match fuel with
+  | 0 => throw "fuel"
+  | fuel + 1 =>
+    let es := ((← getSys).handles h).entries
+    if es == target then return ()
+    match es.head? with
+    | none => return ()
+    | some x =>
+      if target.head? == some x then
+        -- position 0 is right: bring a misplaced element there
+        match (List.range es.length).find? fun q => es[q]? != target[q]? with
+        | some q => act (Ev.promote h q); permuteTo fuel h target
+        | none => return ()
+      else
+        match (List.range target.length).find? fun q => target[q]? == some x with
+        | some q => act (Ev.promote h q); permuteTo fuel h target
+        | none => throw "permute"
+
+/-- `snapshot.indices.swap(0, idx)` for the installation holding entry `i` -/
+def promoteEntry (h i : Nat) : M Unit := do
+  let es := ((← getSys).handles h).entries
+  let (b0, lb) := groupOf es i
+  let (_, la) := groupOf es 0
+  if b0 == 0 then return ()
+  else if la == 1 && lb == 1 then act (Ev.promote h i)
+  else permuteTo (4 * es.length + 4) h (swapGroups es i)
 
 /-- `Handle::contains` -/
 def apiContains (fuel : Nat) (h o : Nat) : M String := do
@@ -286,7 +375,7 @@ def apiContains (fuel : Nat) (h o : Nat) : M String := do
     let w ← get
     match findEntry w (w.sys.handles h).entries o 0 with
     | some (i, _) =>
-      if i != 0 then act (Ev.promote h i)
+      promoteEntry h i
       return "1"
     | none =>
       if (← getAux h).looseDbs && w.sys.loose.contains o then return "1"
@@ -307,7 +396,7 @@ def loadPack (h i : Nat) : M Bool := do
     match p with
     | some b =>
       let e := (((← getSys).handles h).entries.getD i { slot := 0, id := ⟨0, 0⟩, multi := false, pack := none })
-      if b.multi != e.multi || b.pack.isLoaded then act (Ev.lp4 h) else act (Ev.lp5 h)
+      if b.multi != e.multi || (b.packAt e.pk).isLoaded then act (Ev.lp4 h) else act (Ev.lp5 h)
     | none => act (Ev.lp4 h)
     return (← getSys).rets.length > nrets
   | _ => return false
@@ -329,7 +418,7 @@ def apiFind (fuel : Nat) (h o : Nat) : M String := do
         let ok := match s.rets.head? with
           | some r => r.got == r.want
           | none => false
-        if i != 0 then act (Ev.promote h i)
+        promoteEntry h i
         return if ok then "ok" else "wrong"
       else
         match ← loadOneIndex h with
@@ -348,19 +437,26 @@ unused_slots/unreachable_indices/unreachable_packs/num_refreshes/num_handles -/
 def metrics (w : World) : String :=
   let s := w.sys
   let reach := s.pubSlots.filterMap fun k => (s.slots k).files
+  let packsOf := fun (b : Bundle) => b.pack :: b.more
   let openIdx := (reach.filter fun b => b.idx.isLoaded).length
-  let openPacks := (reach.filter fun b => b.pack.isLoaded).length
+  let openPacks := (reach.map fun b => ((packsOf b).filter LoadSt.isLoaded).length).foldl (· + ·) 0
+  let knownPacks := (reach.map fun b => (packsOf b).length).foldl (· + ·) 0
   let all := (List.range s.nSlots).map fun k => (s.slots k).files
   let unused := (all.filter fun f => f.isNone).length
   let disp := all.filterMap fun f => match f with
     | some b => if b.isDisposable then some b else none
     | none => none
-  let unreachPacks := (disp.filter fun b => b.pack.isLoaded).length
+  let unreachPacks := (disp.map fun b => ((packsOf b).filter LoadSt.isLoaded).length).foldl (· + ·) 0
   let handles := (w.haux.filter fun a => a.alive).length
-  s!"{openIdx}/{reach.length}/{openPacks}/{reach.length}/{unused}/{disp.length}/{unreachPacks}/{w.numRefreshes}/{handles}"
+  s!"{openIdx}/{reach.length}/{openPacks}/{knownPacks}/{unused}/{disp.length}/{unreachPacks}/{w.numRefreshes}/{handles}"
 
 def parseNats (sep : String) (s : String) : Option (List Nat) :=
   if s.isEmpty then some [] else (s.splitOn sep).mapM fun x => x.toNat?
+
+/-- an element of the listing: an index file with its objects, or a version of the multi-pack index with its packs -/
+inductive Item
+  | idx (f : Nat) (os : List Nat)
+  | midx (f : Nat) (packs : List (Nat × List Nat))
 
 def parseFile (s : String) : Option (Nat × List Nat) :=
   match s.splitOn ":" with
@@ -370,16 +466,54 @@ def parseFile (s : String) : Option (Nat × List Nat) :=
     some (f, os)
   | _ => none
 
-/-- the pack directory changed to `files`: additions first, then removals -/
-def setDisk (files : List (Nat × List Nat)) : M Unit := do
+def parseItem (s : String) : Option Item :=
+  match s.toList with
+  | 'M' :: r =>
+    match (String.ofList r).splitOn ":" with
+    | [f, ps] => do
+      let f ← f.toNat?
+      let packs ← (ps.splitOn "|").mapM fun p =>
+        match p.splitOn "=" with
+        | [pf, os] => do some ((← pf.toNat?), (← parseNats "." os))
+        | _ => none
+      some (Item.midx f packs)
+    | _ => none
+  | _ => (parseFile s).map fun t => Item.idx t.1 t.2
+
+def dedupNats (l : List Nat) : List Nat := l.foldl (fun acc x => if acc.contains x then acc else acc ++ [x]) []
+
+/-- the pack directory changed: additions first, then removals.  On disk (for the protocol core) are: the
+listed index files, the index files of the packs of the current multi-pack index, the current multi-pack
+index, and an older version of it as long as all its packs are there. -/
+def setDisk (items : List Item) : M Unit := do
+  -- remember versions and objects
+  for it in items do
+    match it with
+    | Item.idx f os => modify fun w => { w with fileObjs := (w.fileObjs.filter fun d => d.1 != f) ++ [(f, os)] }
+    | Item.midx f packs =>
+      modify fun w => { w with midx := (w.midx.filter fun d => d.1 != f) ++ [(f, packs)] }
+      for (pf, os) in packs do
+        modify fun w => if (w.fileObjs.any fun d => d.1 == pf) then w else { w with fileObjs := w.fileObjs ++ [(pf, os)] }
+  let w ← get
+  let packFiles : List Nat := items.foldl (fun acc it => match it with
+    | Item.idx f _ => acc ++ [f]
+    | Item.midx _ packs => acc ++ packs.map fun p => p.1) []
+  let current : List Nat := items.filterMap fun it => match it with
+    | Item.midx f _ => some f
+    | _ => none
+  let oldVersions := w.midx.filter fun d => !current.contains d.1 && d.2.all fun p => packFiles.contains p.1
+  let desired : List (Nat × List Nat) :=
+    (packFiles.map fun f => (f, objsOfFile w f))
+    ++ (w.midx.filter fun d => current.contains d.1).map (fun d => (d.1, dedupNats (d.2.foldl (fun acc p => acc ++ p.2) [])))
+    ++ oldVersions.map (fun d => (d.1, dedupNats (d.2.foldl (fun acc p => acc ++ p.2) [])))
   let s ← getSys
-  for (f, os) in files do
-    if !onDisk s.disk f then
-      act (Ev.envAdd f os)
-      modify fun w => { w with fileObjs := (w.fileObjs.filter fun d => d.1 != f) ++ [(f, os)] }
+  for (f, os) in desired do
+    if !onDisk s.disk f then act (Ev.envAdd f os)
   for (f, _) in s.disk do
-    if !(files.any fun d => d.1 == f) then act (Ev.envRemove f)
-  modify fun w => { w with listing := files.map fun d => d.1 }
+    if !(desired.any fun d => d.1 == f) then act (Ev.envRemove f)
+  modify fun w => { w with listing := items.map fun it => match it with
+    | Item.idx f _ => f
+    | Item.midx f _ => f }
 
 def setLoose (os : List Nat) : M Unit := do
   let s ← getSys
@@ -393,7 +527,7 @@ def runStep (st : String) : M (Option String) := do
   | 'D' :: r =>
     let r := String.ofList r
     let files ← (if r.isEmpty then pure [] else
-      match (r.splitOn "+").mapM parseFile with
+      match (r.splitOn "+").mapM parseItem with
       | some fs => pure fs
       | none => throw "bad-op")
     setDisk files
